@@ -98,15 +98,27 @@ def judge_answer(st, ans, sig, logic, decls, blk):
             _tw.append((ev is None or ev["lost_bits"]) and cc.reasserted_later(st, logic, decls))
         return _tw[0]
 
-    rewritten = cc.rewritten_form_is_another_assertion(st)
+    _rw, _ff = [], []
+
+    def rewritten():      # lazily (violation path): may refer pairs of assertions to z3
+        if not _rw:
+            _rw.append(cc.preprocessed_form_is_another_assertion(st, logic, decls))
+        return _rw[0]
+
+    def false_first():    # a false assertion blames partition 0 (the first assertion of the script) although it was popped
+        if not _ff:
+            bit0 = ev is None or any(ix == [0] and t in blk.all for t, ix, _ in blk.parts)
+            _ff.append(bit0 and cc.false_assertion_and_first_popped(st, logic, decls))
+        return _ff[0]
     if ev is not None and ev["stale"]:
-        rec["viol"].append(("core-term-not-current:%s" % ("rewritten-form-is-another-assertion" if rewritten else
+        rec["viol"].append(("core-term-not-current:%s" % ("false-assertion-blames-first-assertion" if false_first() else
+                                                         "rewritten-form-is-another-assertion" if rewritten() else
                                                          "stale-refutation-after-pop" if st.unsat_frames_gone else "plain"),
                             "the builder's extracted set contains a top-level formula that is not among the solver's current assertions (traced: core-all vs core-current)",
                             dict(core_all=blk.all, core_current=blk.current)))
 
     def cause_sat():
-        return "rewritten-form-is-another-assertion" if rewritten else "stale-refutation-after-pop" if stale else "term-asserted-twice" if twice() else \
+        return "false-assertion-blames-first-assertion" if false_first() else "rewritten-form-is-another-assertion" if rewritten() else "stale-refutation-after-pop" if stale else "term-asserted-twice" if twice() else \
             "named-assertion-with-nonbool-ite" if (ite_named and not full) else "plain"
     if not full:
         if not all(isinstance(n, str) for n in ans):
@@ -140,6 +152,10 @@ def judge_answer(st, ans, sig, logic, decls, blk):
                 elif still is None:
                     rec["labels"].append("name-check:undecided")
                     continue
+                elif false_first():
+                    c = "false-assertion-blames-first-assertion"
+                elif rewritten():
+                    c = "rewritten-form-is-another-assertion"
                 elif stale:
                     c = "stale-refutation-after-pop"
                 else:
@@ -180,7 +196,8 @@ def judge_answer(st, ans, sig, logic, decls, blk):
                 rec["labels"].append("formula-check:undecided")
                 continue
             was = cc.equivalent_to_some(logic, decls, f, st.popped_terms)
-            c = "stale-refutation-after-pop" if (was and stale) else "popped-assertion" if was else "plain"
+            c = ("false-assertion-blames-first-assertion" if false_first() else "rewritten-form-is-another-assertion" if rewritten() else
+                 "stale-refutation-after-pop" if (was and stale) else "popped-assertion" if was else "plain")
             rec["viol"].append(("full-core:formula-not-a-current-assertion:%s" % c,
                                 "the printed formula %s is not equivalent to any current assertion%s" %
                                 (sx_str(f)[:200], " (it was asserted at a level that has been popped)" if was else ""), dict(formula=sx_str(f))))
